@@ -17,6 +17,7 @@ type Ty struct {
 	Kind  string // int32 float64 string bool | ptr slice array map struct func iface named namedm namedv
 	Elems []*Ty  // ptr/slice/array/named/namedm: [elem]; map: [key, elem]; struct: [a, b]; func: [param, result]
 	Depth int
+	Extra bool // built with the second representative (string): not nested further
 }
 
 var tyBases = []*Ty{{Kind: "int32"}, {Kind: "float64"}, {Kind: "string"}, {Kind: "bool"}}
@@ -136,8 +137,8 @@ func onlyInt32(t *Ty) bool {
 // TypesUpTo enumerates the grammar. Depth 1 is complete. From depth 2 on the unary constructors
 // are applied to every type of the previous depth, and the binary constructors (map, struct,
 // func) get every type of the previous depth in one position and each representative in the
-// other (int32; at depth 2 also string when nreps is 2): the stated cap that keeps depth 3 at
-// about ten thousand types. A method with a pointer receiver (namedm, the form Wa's own `func T.M()` syntax
+// other (int32; at depth 2 also string when nreps is 2, and those extra types are not nested
+// further): the stated cap that keeps depth 3 at about nine thousand types. A method with a pointer receiver (namedm, the form Wa's own `func T.M()` syntax
 // declares) is added wherever Go allows a receiver; a value receiver (namedv) on the basic types
 // and on the depth-1 types over int32.
 func TypesUpTo(depth int, nreps int) []*Ty {
@@ -150,6 +151,9 @@ func TypesUpTo(depth int, nreps int) []*Ty {
 		}
 		var cur []*Ty
 		for _, e := range prev {
+			if e.Extra {
+				continue
+			}
 			cur = append(cur, mk("ptr", e), mk("slice", e), mk("array", e), mk("named", e))
 			if validReceiverBase(e) {
 				cur = append(cur, mk("namedm", e))
@@ -167,11 +171,19 @@ func TypesUpTo(depth int, nreps int) []*Ty {
 			}
 		} else {
 			for _, e := range prev {
-				for _, r := range reps {
+				if e.Extra {
+					continue
+				}
+				for ri, r := range reps {
+					var ts []*Ty
 					if e.Comparable() {
-						cur = append(cur, mk("map", e, r))
+						ts = append(ts, mk("map", e, r))
 					}
-					cur = append(cur, mk("map", r, e), mk("struct", e, r), mk("struct", r, e), mk("func", e, r), mk("func", r, e))
+					ts = append(ts, mk("map", r, e), mk("struct", e, r), mk("struct", r, e), mk("func", e, r), mk("func", r, e))
+					for _, t := range ts {
+						t.Extra = ri > 0
+					}
+					cur = append(cur, ts...)
 				}
 			}
 		}
